@@ -136,6 +136,12 @@ func (x *Exec) frameObligations(exit *State, ctx *SpecCtx) error {
 		if a != nil && a.whole {
 			continue
 		}
+		if x.usesAlloc && !x.dirtyAll && !x.dirty[k] {
+			// every write under this key went to an object this function allocated itself (and no callee, loop
+			// havoc or lock section touched the key): objects allocated before the call are unchanged by construction
+			x.oblige(exit, "frame", frameLabel(k), tTrue, x.fn.Pos(), "locations not named in modifies are unchanged: "+k+" (only objects allocated by this function are written)", nil)
+			continue
+		}
 		r := &Term{Op: "r!f", S: SInt}
 		cond := []*Term{}
 		if x.usesAlloc {
